@@ -171,13 +171,16 @@ def markMany (s : St) (ks : List Nat) : St × Option Err :=
 def release (s : St) (k : Nat) : St × Out :=
   if k ∈ s.idSet then ({ s with idSet := s.idSet.filter (· ≠ k) }, .ok) else (s, .err .key)
 
+/-- Sequencing of statements that may raise: continue with `g` if the first part returned normally. -/
+def andThen (r : St × Out) (g : St → St × Out) : St × Out :=
+  match r with
+  | (s1, .ok) => g s1
+  | r => r
+
 /-- A Python `for` loop whose body may raise: stop at the first outcome that is not `ok`. -/
 def forEach {α : Type} (f : St → α → St × Out) : St → List α → St × Out
   | s, [] => (s, .ok)
-  | s, a :: as =>
-    match f s a with
-    | (s1, .ok) => forEach f s1 as
-    | r => r
+  | s, a :: as => andThen (f s a) (fun s1 => forEach f s1 as)
 
 def putObstacle (s : St) (r : Role) (k : Nat) : St :=
   match r with
@@ -248,9 +251,7 @@ def removeLights (s : St) (ks : List Nat) : St × Out := forEach removeLight s k
 
 /-- `remove_intersection` (single form): the intersection id, then the incoming ids of the *argument*. -/
 def removeInter (s : St) (i : Inter) : St × Out :=
-  match release { s with net := s.net.removeInter i.id } i.id with
-  | (s1, .ok) => forEach release s1 i.incs
-  | r => r
+  andThen (release { s with net := s.net.removeInter i.id } i.id) (fun s1 => forEach release s1 i.incs)
 
 /-- list form: `for inter in intersection: self.remove_intersection(inter)`. -/
 def removeInters (s : St) (is : List Inter) : St × Out := forEach removeInter s is
@@ -272,17 +273,10 @@ def dropLanelet (s : St) (l : Lanelet) : St × Out :=
 
 /-- `remove_lanelet(lanelet, referenced_elements)`. -/
 def removeLanelets (s : St) (ls : List Lanelet) (refd : Bool) : St × Out :=
-  let r1 : St × Out :=
-    if refd then
-      let hs := hangingSigns s ls
-      let hl := hangingLights s ls
-      match removeSigns s hs with
-      | (s1, .ok) => removeLights s1 hl
-      | r => r
-    else (s, .ok)
-  match r1 with
-  | (s1, .ok) => forEach dropLanelet s1 ls
-  | r => r
+  let hs := hangingSigns s ls
+  let hl := hangingLights s ls
+  andThen (if refd then andThen (removeSigns s hs) (fun s1 => removeLights s1 hl) else (s, .ok))
+    (fun s1 => forEach dropLanelet s1 ls)
 
 /-- One iteration of `for lanelet in self.lanelet_network.lanelets: self.remove_lanelet(lanelet)`:
     the loop runs over a copy of the list but sees the *current* references of each lanelet object. -/
@@ -293,24 +287,15 @@ def eraseLanelet (s : St) (k : Nat) : St × Out :=
 
 /-- `erase_lanelet_network` (scenario.py:909-921). -/
 def erase (s : St) : St × Out :=
-  match forEach eraseLanelet s (s.net.lanelets.map (·.id)) with
-  | (s1, .ok) =>
-    match forEach removeSign s1 s1.net.signs with
-    | (s2, .ok) =>
-      match forEach removeLight s2 s2.net.lights with
-      | (s3, .ok) =>
-        match forEach removeInter s3 s3.net.inters with
-        | (s4, .ok) => ({ s4 with net := {} }, .ok)
-        | r => r
-      | r => r
-    | r => r
-  | r => r
+  andThen (forEach eraseLanelet s (s.net.lanelets.map (·.id))) fun s1 =>
+  andThen (forEach removeSign s1 s1.net.signs) fun s2 =>
+  andThen (forEach removeLight s2 s2.net.lights) fun s3 =>
+  andThen (forEach removeInter s3 s3.net.inters) fun s4 =>
+  ({ s4 with net := {} }, .ok)
 
 /-- `replace_lanelet_network` -/
 def replaceNet (s : St) (n : Net) : St × Out :=
-  match erase s with
-  | (s1, .ok) => addNetwork s1 n
-  | r => r
+  andThen (erase s) (fun s1 => addNetwork s1 n)
 
 def listMax : List Nat → Nat
   | [] => 0
